@@ -74,6 +74,11 @@ impl Engine for HrEngine {
                 let leaves = ["b", "c", "d.x", "d.y", "e"];
                 let mut script = vec!["1".to_string()];
                 let mut plan = vec![];
+                // sometimes a contained loader panic inside no_record comes first: recording must resume after it
+                if rng.chance(1, 2) {
+                    l.push(format!("src.put {} {} {} 0", hexs("boom"), hexs("s"), hexs("#")));
+                    script.push("^S1:boom".to_string());
+                }
                 for leaf in leaves.iter() {
                     let k = *rng.pick(&kinds);
                     let t = *rng.pick(&["S1", "S2", "M20"]);
@@ -90,6 +95,10 @@ impl Engine for HrEngine {
                 // some leaves are also loaded directly (so that they are cached and registered themselves)
                 for leaf in leaves.iter() { if rng.chance(1, 2) { l.push(format!("load {} {}", rng.pick(&["S1", "S2", "M20"]), hexs(leaf))); } }
                 l.push(format!("load S0 {}", hexs("a")));
+                // leaves looked up while absent become cached (and registered) only now
+                for tok in plan.iter() {
+                    if let Some((t, leaf)) = tok[1..].split_once(':') { if tok.starts_with('?') && rng.chance(2, 3) { l.push(format!("load {t} {}", hexs(leaf))); } }
+                }
                 l.push(format!("plan {}", plan.join(",")));
                 l.push("reload".into());
                 l.push("dump".into());
